@@ -422,6 +422,80 @@ def _self_attrs(f: FuncInfo, e: ast.AST, depth: int = 0, seen: Optional[set] = N
     return out
 
 
+def _derived_from_key(repo: Repo, f: FuncInfo, p: str, attr: str, key_comps: set) -> bool:
+    """Is `p.attr` a property (of the class p is annotated with, on every class of that hierarchy that defines it)
+    computed only from fields of p that the key contains?"""
+    ann = None
+    a = f.node.args
+    for x in a.posonlyargs + a.args + a.kwonlyargs:
+        if x.arg == p:
+            ann = x.annotation
+    if isinstance(ann, ast.Constant) and isinstance(ann.value, str):
+        try:
+            ann = ast.parse(ann.value, mode="eval").body
+        except SyntaxError:
+            return False
+    if ann is None or dotted(ann) is None:
+        return False
+    base = repo.resolve_name(f.module, dotted(ann))
+    if not isinstance(base, ClassInfo):
+        # annotations under TYPE_CHECKING are not always importable: look the class up by name
+        cands = [c for c in repo.all_classes() if c.name == dotted(ann).split(".")[-1]]
+        if len(cands) != 1:
+            return False
+        base = cands[0]
+    have = {c[1:].lstrip("_") for c in key_comps if isinstance(c, str) and c.startswith(".")}
+    # grid quantities: decided on the storage slots the definitions reach (sa/rules/gridkind.py) — a property computed
+    # from slots that the key's own attributes reach is determined by the key
+    try:
+        from . import gridkind as K
+
+        grid = repo.cls("abtem.core.grid", "Grid")
+        eng = getattr(repo, "_gridkind_engine", None)
+        if eng is None:
+            eng = K.Engine(repo, grid, "gpts", "sampling")
+            repo._gridkind_engine = eng
+
+        def slots(name: str):
+            for nm in (name, "_valid_" + name, "_" + name):
+                try:
+                    k = eng.attr_kind(base, nm)
+                except AnalysisError:
+                    continue
+                if k.atoms() and not any(a.split(".")[-1].lstrip("_") == nm.lstrip("_") and
+                                         not a.startswith("Grid.") and not a.startswith(grid.qualname)
+                                         for a in k.atoms()):
+                    return k.atoms()
+            return None
+
+        want = slots(attr)
+        if want:
+            got = set()
+            for h in have:
+                got |= slots(h) or set()
+            if want <= got:
+                return True
+    except (AnalysisError, KeyError, LookupError, AttributeError):
+        pass
+    n = 0
+    for c in repo.subclasses(base, strict=False):
+        m = None
+        for nm in (attr, "_" + attr, "_valid_" + attr):
+            m = m or c.find_method(nm)
+        if m is None:
+            continue
+        if not m.is_property:
+            return False
+        n += 1
+        fields = set()
+        for st in m.body:
+            fields |= {x[len("valid_"):] if x.startswith("valid_") else x for x in
+                       (y.lstrip("_") for y in _self_attrs(m, st))}
+        if not fields or not fields <= have:
+            return False
+    return n > 0
+
+
 class CacheSite:
     def __init__(self, f, kind, owner, cache_name, key, value, store):
         self.f, self.kind, self.owner, self.cache_name = f, kind, owner, cache_name
@@ -544,6 +618,13 @@ def check(ctx, rule: str = "R-CACHEKEY", modules: Optional[set[str]] = None, sta
                 problems.append((p, f"`{p}` flows into the cached value but not into the key"))
                 continue
             missing = {c for c in comps if c != WHOLE and c not in kc}
+            # a property of the parameter's class computed from fields that are all in the key is covered by them
+            derived = {c for c in missing if isinstance(c, str) and c.startswith(".") and
+                       _derived_from_key(repo, f, p, c[1:], kc)}
+            missing -= derived
+            comps = comps - derived
+            if not comps:
+                continue
             if {0, 1} <= kc and not missing:
                 continue  # both components of a 2-vector are in the key
             if WHOLE in comps or missing:
